@@ -11,7 +11,10 @@ import (
 	"fmt"
 	"math/big"
 	"os"
+	"runtime/debug"
 	"sort"
+	"strings"
+	"sync"
 	"time"
 
 	"github.com/MinterTeam/minter-go-node/cmd/utils"
@@ -112,6 +115,25 @@ type Node struct {
 	Genesis types.AppState
 	Hashes  map[int64]string
 	lastVals []curVal
+	Stacks   []string
+}
+
+// stackSummary returns the repo frames of the current (panicking) goroutine.
+func stackSummary() string {
+	var out []string
+	for _, l := range strings.Split(string(debug.Stack()), "\n") {
+		if strings.Contains(l, "/repo/") {
+			f := strings.TrimSpace(l)
+			if i := strings.Index(f, " +0x"); i > 0 {
+				f = f[:i]
+			}
+			out = append(out, strings.TrimPrefix(f, "/repo/"))
+		}
+	}
+	if len(out) > 8 {
+		out = out[:8]
+	}
+	return strings.Join(out, " <- ")
 }
 
 func defaultVersions() []types.Version {
@@ -242,6 +264,7 @@ func (n *Node) guard(where string, f func()) (ok bool) {
 	defer func() {
 		if r := recover(); r != nil {
 			n.Panics = append(n.Panics, fmt.Sprintf("%s@%d: %v", where, n.Height+1, r))
+			n.Stacks = append(n.Stacks, stackSummary())
 			ok = false
 		}
 	}()
@@ -383,3 +406,7 @@ func sortedStrs(m map[string]bool) []string {
 	sort.Strings(s)
 	return s
 }
+
+func abciDeliver(raw []byte) abci.RequestDeliverTx { return abci.RequestDeliverTx{Tx: raw} }
+
+func newSyncMap() *sync.Map { return &sync.Map{} }
